@@ -226,17 +226,27 @@ class BaseOptimizationLibrary(BaseDriverLibrary):
 
         scaling_threshold = settings[self._SCALING_THRESHOLD]
         if scaling_threshold is not None:
-            self._problem.objective = self.__scale(
+            # Replace only the functions that are actually scaled;
+            # resetting the others would e.g. mark a linear problem as non-linear.
+            objective = self.__scale(
                 self._problem.objective,
                 function_values[self._problem.objective.name],
                 scaling_threshold,
             )
-            self._problem.constraints = [
+            if objective is not self._problem.objective:
+                self._problem.objective = objective
+
+            constraints = [
                 self.__scale(
                     constraint, function_values[constraint.name], scaling_threshold
                 )
                 for constraint in self._problem.constraints
             ]
+            if any(
+                new is not old
+                for new, old in zip(constraints, self._problem.constraints)
+            ):
+                self._problem.constraints = constraints
 
     @classmethod
     def _get_unsuitability_reason(
